@@ -10,7 +10,8 @@
 (***************************************************************************)
 EXTENDS BebopSchema, Json
 
-CONSTANTS Tier, Seed
+CONSTANTS Tier, Seed,
+          Parts   \* the parts to enumerate: a subset of {"base", "inject", "sites", "graph", "names"}
 
 VARIABLES part, ci
 vars == <<part, ci>>
@@ -272,9 +273,131 @@ GraphCase(i, n) ==   \* i 0-based within the cases of size >= n
   ELSE GraphCase(i - NGraphs(n) * Len(EdgeKinds), n + 1)
 
 -----------------------------------------------------------------------------
+(* Names: a schema is a valid schema whatever its identifiers are called     *)
+(* (other than the primitive type names and the words of the language).     *)
+(* Every candidate identifier is put at every kind of naming site of a      *)
+(* small valid schema: C13 must accept it, C12 must compile what is         *)
+(* generated from it (under the option sets, which change how names are     *)
+(* exposed).  up/lo are the spellings with the first letter upper/lower     *)
+(* case (strings are atoms for TLC).                                        *)
+NameTable == <<
+  [n |-> "point", up |-> "Point", lo |-> "point", cls |-> "plain"],
+  [n |-> "x", up |-> "X", lo |-> "x", cls |-> "plain"],
+  [n |-> "Point", up |-> "Point", lo |-> "point", cls |-> "plain"],
+  [n |-> "X9", up |-> "X9", lo |-> "x9", cls |-> "plain"],
+  [n |-> "a_b", up |-> "A_b", lo |-> "a_b", cls |-> "plain"],
+  [n |-> "my_type", up |-> "My_type", lo |-> "my_type", cls |-> "plain"],
+  [n |-> "camelCase", up |-> "CamelCase", lo |-> "camelCase", cls |-> "plain"],
+  [n |-> "type", up |-> "Type", lo |-> "type", cls |-> "gokeyword"],
+  [n |-> "func", up |-> "Func", lo |-> "func", cls |-> "gokeyword"],
+  [n |-> "range", up |-> "Range", lo |-> "range", cls |-> "gokeyword"],
+  [n |-> "var", up |-> "Var", lo |-> "var", cls |-> "gokeyword"],
+  [n |-> "chan", up |-> "Chan", lo |-> "chan", cls |-> "gokeyword"],
+  [n |-> "go", up |-> "Go", lo |-> "go", cls |-> "gokeyword"],
+  [n |-> "select", up |-> "Select", lo |-> "select", cls |-> "gokeyword"],
+  [n |-> "default", up |-> "Default", lo |-> "default", cls |-> "gokeyword"],
+  [n |-> "interface", up |-> "Interface", lo |-> "interface", cls |-> "gokeyword"],
+  [n |-> "package", up |-> "Package", lo |-> "package", cls |-> "gokeyword"],
+  [n |-> "return", up |-> "Return", lo |-> "return", cls |-> "gokeyword"],
+  [n |-> "switch", up |-> "Switch", lo |-> "switch", cls |-> "gokeyword"],
+  [n |-> "case", up |-> "Case", lo |-> "case", cls |-> "gokeyword"],
+  [n |-> "break", up |-> "Break", lo |-> "break", cls |-> "gokeyword"],
+  [n |-> "continue", up |-> "Continue", lo |-> "continue", cls |-> "gokeyword"],
+  [n |-> "defer", up |-> "Defer", lo |-> "defer", cls |-> "gokeyword"],
+  [n |-> "else", up |-> "Else", lo |-> "else", cls |-> "gokeyword"],
+  [n |-> "fallthrough", up |-> "Fallthrough", lo |-> "fallthrough", cls |-> "gokeyword"],
+  [n |-> "for", up |-> "For", lo |-> "for", cls |-> "gokeyword"],
+  [n |-> "goto", up |-> "Goto", lo |-> "goto", cls |-> "gokeyword"],
+  [n |-> "if", up |-> "If", lo |-> "if", cls |-> "gokeyword"],
+  [n |-> "error", up |-> "Error", lo |-> "error", cls |-> "predeclared"],
+  [n |-> "len", up |-> "Len", lo |-> "len", cls |-> "predeclared"],
+  [n |-> "int", up |-> "Int", lo |-> "int", cls |-> "predeclared"],
+  [n |-> "nil", up |-> "Nil", lo |-> "nil", cls |-> "predeclared"],
+  [n |-> "iota", up |-> "Iota", lo |-> "iota", cls |-> "predeclared"],
+  [n |-> "make", up |-> "Make", lo |-> "make", cls |-> "predeclared"],
+  [n |-> "new", up |-> "New", lo |-> "new", cls |-> "predeclared"],
+  [n |-> "append", up |-> "Append", lo |-> "append", cls |-> "predeclared"],
+  [n |-> "cap", up |-> "Cap", lo |-> "cap", cls |-> "predeclared"],
+  [n |-> "copy", up |-> "Copy", lo |-> "copy", cls |-> "predeclared"],
+  [n |-> "panic", up |-> "Panic", lo |-> "panic", cls |-> "predeclared"],
+  [n |-> "any", up |-> "Any", lo |-> "any", cls |-> "predeclared"],
+  [n |-> "rune", up |-> "Rune", lo |-> "rune", cls |-> "predeclared"],
+  [n |-> "uintptr", up |-> "Uintptr", lo |-> "uintptr", cls |-> "predeclared"],
+  [n |-> "print", up |-> "Print", lo |-> "print", cls |-> "predeclared"],
+  [n |-> "close", up |-> "Close", lo |-> "close", cls |-> "predeclared"],
+  [n |-> "delete", up |-> "Delete", lo |-> "delete", cls |-> "predeclared"],
+  [n |-> "String", up |-> "String", lo |-> "string", cls |-> "predeclared"],
+  [n |-> "Byte", up |-> "Byte", lo |-> "byte", cls |-> "predeclared"],
+  [n |-> "Bool", up |-> "Bool", lo |-> "bool", cls |-> "predeclared"],
+  [n |-> "Int32", up |-> "Int32", lo |-> "int32", cls |-> "predeclared"],
+  [n |-> "Uint8", up |-> "Uint8", lo |-> "uint8", cls |-> "predeclared"],
+  [n |-> "Float64", up |-> "Float64", lo |-> "float64", cls |-> "predeclared"],
+  [n |-> "Error", up |-> "Error", lo |-> "error", cls |-> "predeclared"],
+  [n |-> "Int", up |-> "Int", lo |-> "int", cls |-> "predeclared"],
+  [n |-> "Len", up |-> "Len", lo |-> "len", cls |-> "predeclared"],
+  [n |-> "Nil", up |-> "Nil", lo |-> "nil", cls |-> "predeclared"],
+  [n |-> "Size", up |-> "Size", lo |-> "size", cls |-> "method"],
+  [n |-> "MarshalBebop", up |-> "MarshalBebop", lo |-> "marshalBebop", cls |-> "method"],
+  [n |-> "MarshalBebopTo", up |-> "MarshalBebopTo", lo |-> "marshalBebopTo", cls |-> "method"],
+  [n |-> "UnmarshalBebop", up |-> "UnmarshalBebop", lo |-> "unmarshalBebop", cls |-> "method"],
+  [n |-> "EncodeBebop", up |-> "EncodeBebop", lo |-> "encodeBebop", cls |-> "method"],
+  [n |-> "DecodeBebop", up |-> "DecodeBebop", lo |-> "decodeBebop", cls |-> "method"],
+  [n |-> "MustUnmarshalBebop", up |-> "MustUnmarshalBebop", lo |-> "mustUnmarshalBebop", cls |-> "method"],
+  [n |-> "size", up |-> "Size", lo |-> "size", cls |-> "method"],
+  [n |-> "marshalBebop", up |-> "MarshalBebop", lo |-> "marshalBebop", cls |-> "method"],
+  [n |-> "marshalBebopTo", up |-> "MarshalBebopTo", lo |-> "marshalBebopTo", cls |-> "method"],
+  [n |-> "unmarshalBebop", up |-> "UnmarshalBebop", lo |-> "unmarshalBebop", cls |-> "method"],
+  [n |-> "encodeBebop", up |-> "EncodeBebop", lo |-> "encodeBebop", cls |-> "method"],
+  [n |-> "decodeBebop", up |-> "DecodeBebop", lo |-> "decodeBebop", cls |-> "method"],
+  [n |-> "mustUnmarshalBebop", up |-> "MustUnmarshalBebop", lo |-> "mustUnmarshalBebop", cls |-> "method"],
+  [n |-> "iohelp", up |-> "Iohelp", lo |-> "iohelp", cls |-> "package"],
+  [n |-> "io", up |-> "Io", lo |-> "io", cls |-> "package"],
+  [n |-> "bebop", up |-> "Bebop", lo |-> "bebop", cls |-> "package"],
+  [n |-> "time", up |-> "Time", lo |-> "time", cls |-> "package"],
+  [n |-> "math", up |-> "Math", lo |-> "math", cls |-> "package"],
+  [n |-> "bytes", up |-> "Bytes", lo |-> "bytes", cls |-> "package"],
+  [n |-> "sync", up |-> "Sync", lo |-> "sync", cls |-> "package"],
+  [n |-> "unsafe", up |-> "Unsafe", lo |-> "unsafe", cls |-> "package"],
+  [n |-> "buf", up |-> "Buf", lo |-> "buf", cls |-> "local"],
+  [n |-> "at", up |-> "At", lo |-> "at", cls |-> "local"],
+  [n |-> "err", up |-> "Err", lo |-> "err", cls |-> "local"],
+  [n |-> "r", up |-> "R", lo |-> "r", cls |-> "local"],
+  [n |-> "w", up |-> "W", lo |-> "w", cls |-> "local"],
+  [n |-> "bbp", up |-> "Bbp", lo |-> "bbp", cls |-> "local"],
+  [n |-> "v", up |-> "V", lo |-> "v", cls |-> "local"],
+  [n |-> "i", up |-> "I", lo |-> "i", cls |-> "local"],
+  [n |-> "ln", up |-> "Ln", lo |-> "ln", cls |-> "local"],
+  [n |-> "k", up |-> "K", lo |-> "k", cls |-> "local"],
+  [n |-> "ok", up |-> "Ok", lo |-> "ok", cls |-> "local"],
+  [n |-> "elem", up |-> "Elem", lo |-> "elem", cls |-> "local"],
+  [n |-> "iow", up |-> "Iow", lo |-> "iow", cls |-> "local"],
+  [n |-> "ior", up |-> "Ior", lo |-> "ior", cls |-> "local"],
+  [n |-> "MakeH", up |-> "MakeH", lo |-> "makeH", cls |-> "derived"],
+  [n |-> "MakeHFromBytes", up |-> "MakeHFromBytes", lo |-> "makeHFromBytes", cls |-> "derived"],
+  [n |-> "MustMakeHFromBytes", up |-> "MustMakeHFromBytes", lo |-> "mustMakeHFromBytes", cls |-> "derived"],
+  [n |-> "HOpCode", up |-> "HOpCode", lo |-> "hOpCode", cls |-> "derived"],
+  [n |-> "NewH", up |-> "NewH", lo |-> "newH", cls |-> "derived"],
+  [n |-> "GetA", up |-> "GetA", lo |-> "getA", cls |-> "derived"] >>
+NamePositions == << "sfield", "mfield", "sname", "mname", "ename", "emember", "uname", "bname", "bfield", "cname" >>
+NHolder(n) == St("H", << F("h", R(n)), F("hs", A(R(n))), F("hm", M("string", R(n))) >>)
+NameItems(pos, n) ==
+  CASE pos = "sfield"  -> << St("S", << F(n, P("int32")), F("other", P("string")) >>) >>
+    [] pos = "mfield"  -> << Ms("M", << FI(1, n, P("int32")), FI(2, "other", P("string")) >>) >>
+    [] pos = "sname"   -> << St(n, << F("a", P("int32")) >>), NHolder(n) >>
+    [] pos = "mname"   -> << Ms(n, << FI(1, "a", P("int32")) >>), NHolder(n) >>
+    [] pos = "ename"   -> << En(n, "", << Mem("A", "1", <<1,0,0,0>>) >>), NHolder(n) >>
+    [] pos = "emember" -> << En("E", "", << Mem(n, "1", <<1,0,0,0>>), Mem("Other", "2", <<2,0,0,0>>) >>), St("H", << F("h", R("E")) >>) >>
+    [] pos = "uname"   -> << Un(n, << Br(1, St("UA", << F("a", P("int32")) >>)) >>), NHolder(n) >>
+    [] pos = "bname"   -> << Un("U", << Br(1, St(n, << F("a", P("int32")) >>)), Br(2, Ms("UB", << FI(1, "b", P("int32")) >>)) >>) >>
+    [] pos = "bfield"  -> << Un("U", << Br(1, St("UA", << F(n, P("int32")) >>)), Br(2, Ms("UB", << FI(1, n, P("int32")) >>)) >>) >>
+    [] pos = "cname"   -> << Co("int32", n, "5"), St("S", << F("a", P("int32")) >>) >>
+NNames == Len(NameTable) * Len(NamePositions)
+NameCase(i) == [pos |-> NamePositions[((i - 1) % Len(NamePositions)) + 1], nm |-> NameTable[((i - 1) \div Len(NamePositions)) + 1]]
+
+-----------------------------------------------------------------------------
 Init == part = "" /\ ci = 0
-Count(p) == CASE p = "base" -> 2 [] p = "inject" -> Len(Injections) [] p = "sites" -> Len(SiteInjections) [] p = "graph" -> GraphCount
-Next == \/ part = "" /\ part' \in {"base", "inject", "sites", "graph"} /\ UNCHANGED ci
+Count(p) == CASE p = "base" -> 2 [] p = "inject" -> Len(Injections) [] p = "sites" -> Len(SiteInjections) [] p = "graph" -> GraphCount [] p = "names" -> NNames
+Next == \/ part = "" /\ part' \in Parts /\ UNCHANGED ci
         \/ part # "" /\ ci = 0 /\ ci' \in 1..Count(part) /\ UNCHANGED part
 IsCase == ci > 0
 
@@ -282,9 +405,11 @@ GC == GraphCase(ci - 1, 1)
 Items == CASE part = "base" -> (IF ci = 1 THEN Base ELSE Base2)
            [] part = "inject" -> Injections[ci].items
            [] part = "sites" -> SiteInjections[ci].items
+           [] part = "names" -> NameItems(NameCase(ci).pos, NameCase(ci).nm.n)
            [] part = "graph" -> GraphItems(GC.n, GC.g, GC.kind)
-Class == CASE part = "base" -> "" [] part = "inject" -> Injections[ci].class [] part = "sites" -> SiteInjections[ci].class [] part = "graph" -> "struct necessarily contains itself"
+Class == CASE part = "base" -> "" [] part = "inject" -> Injections[ci].class [] part = "sites" -> SiteInjections[ci].class [] part = "names" -> "" [] part = "graph" -> "struct necessarily contains itself"
 Site  == CASE part = "base" -> "" [] part = "inject" -> Injections[ci].site [] part = "sites" -> SiteInjections[ci].site
+           [] part = "names" -> NameCase(ci).nm.n \o " as " \o NameCase(ci).pos
            [] part = "graph" -> ToString(GC.n) \o " structs, graph " \o ToString(GC.g) \o ", edges " \o GC.kind
 \* the specification's verdict; edges through arrays/maps are left open by the property's wording
 Expect == IF part = "graph" /\ GC.kind \in {"array", "map"} THEN "unspec"
@@ -294,9 +419,12 @@ Expect == IF part = "graph" /\ GC.kind \in {"array", "map"} THEN "unspec"
 BaseWellFormed == Violated(Base) = "" /\ Violated(Base2) = ""
 InjectionsIllFormed == (IsCase /\ part \in {"inject", "sites"}) => Violated(Items) = Class
 Where == IF part = "sites" THEN SiteInjections[ci].where ELSE ""
+\* every naming of the small schemas is a valid schema
+NamesWellFormed == (IsCase /\ part = "names") => Violated(Items) = ""
+NameOf == IF part = "names" THEN NameCase(ci).nm @@ [pos |-> NameCase(ci).pos] ELSE [pos |-> ""]
 \* graphs: direct edges are rejected iff the graph has a cycle; message/union edges never
 GraphVerdicts == (IsCase /\ part = "graph" /\ GC.kind \in {"message", "union"}) => Violated(Items) = ""
 
 Export == IsCase => PrintT("@@PCASE " \o ToJson([part |-> part, ci |-> ci, tokens |-> Tokens(Items), file |-> [x |-> 0],
-                                                  extra |-> [class |-> Class, site |-> Site, where |-> Where, expect |-> Expect]]))
+                                                  extra |-> [class |-> Class, site |-> Site, where |-> Where, expect |-> Expect, name |-> NameOf]]))
 =============================================================================
